@@ -570,9 +570,10 @@ pub struct ArrOut {
 impl Output for ArrOut {
     #[inline]
     fn write(&mut self, bytes: &[u8]) {
-        let k = bytes.len().min(self.buf.len() - self.n);
-        self.buf[self.n..self.n + k].copy_from_slice(&bytes[..k]);
-        self.n += bytes.len();
+        let at = self.n.min(self.buf.len());
+        let k = bytes.len().min(self.buf.len() - at);
+        self.buf[at..at + k].copy_from_slice(&bytes[..k]);
+        self.n = self.n.saturating_add(bytes.len());
     }
 }
 
